@@ -329,11 +329,37 @@ def r25c(ctx, P):
     ctx.floor(rid, n, 1, "api::types values built inside a loop by a front end (parse_sort)")
 
 
+def r25d(ctx, P):
+    rid = "R25.d"
+    ctx.rule(rid, "TYPE (a reader is a snapshot, C06): IndexReader::search answers from the manifest and deletion lists copied when the "
+                  "reader was opened, so a front end that keeps a reader beyond one request answers from a stale snapshot while the "
+                  "Rust API (Index::reader per search) does not. No struct, enum or static of searchlite-cli / -http / -ffi has a "
+                  "field whose type contains IndexReader or SegmentReader")
+    fronts = ("searchlite_cli", "searchlite_http", "searchlite_ffi")
+    n = 0
+    bad = []
+    for path, adt in sorted(P.adts.items()):
+        if not path.startswith(fronts):
+            continue
+        n += 1
+        for v in adt.get("variants", []):
+            for fld in v.get("fields", []):
+                ty = fld[1]
+                if "api::reader::IndexReader" in ty or "segment::SegmentReader" in ty:
+                    bad.append((path, fld[0], ty))
+    ctx.floor(rid, n, 10, "type definitions in the front-end crates")
+    ctx.ob(rid, "%s:no-reader-in-long-lived-state" % rid, not bad,
+           "no front-end type stores an IndexReader / SegmentReader (%d types examined)" % n if not bad else
+           "%s.%s : %s keeps a reader across requests: searches through it do not see later commits (deletions are copied when the reader is "
+           "opened), unlike IndexReader::search on a fresh reader" % (bad[0][0], bad[0][1], bad[0][2][:120]), None)
+
+
 def run(ctx, progs):
     P = progs.get("default")
     r25a(ctx, P)
     r25b(ctx, P)
     r25c(ctx, P)
+    r25d(ctx, P)
     if ctx.tier == "thorough":
         ctx.config = "features"
         Pf = progs.get("features")
